@@ -6,4 +6,5 @@ mkdir -p /verif/bin
 (cd /verif/engine && go build -o /verif/bin/gosym .)
 (cd /verif/tools/exclgen && go build -o /verif/bin/exclgen .)
 (cd /verif/tools/c09gen && go build -o /verif/bin/c09gen .)
+(cd /verif/tools/fontgen && go build -o /verif/bin/fontgen .)
 echo "setup ok"
